@@ -916,8 +916,8 @@ func checkEmit(prop, tier string, seed int, updateLedger bool) int {
 		cov["bounded_standins"] = []string{"BOUNDED (not counted as proved): the real Go and Python generators on enumerated programs: every emitted *_test.go parses with go/parser, every emitted *_test.py parses with python3 ast"}
 		cov["bounded_standin_run"] = map[string]interface{}{"bound": fmt.Sprintf("%d programs enumerated in goverif/emittest.go (testPrograms), 2 languages", len(testPrograms())), "cases": bounded, "failing": boundedFailing}
 	} else if bounded > 0 {
-		cov["bounded_standins"] = []string{"BOUNDED (not counted as proved): the real LuaWspGenerator.Generate on enumerated programs (declaration order x reference kind x nesting): whole-file advance / scope, and a `local function dissect_x` precedes every call of dissect_x"}
-		cov["bounded_standin_run"] = map[string]interface{}{"bound": fmt.Sprintf("%d programs enumerated in goverif/lua.go (luaPrograms), 3 predicates each", len(luaPrograms())), "cases": bounded, "failing": boundedFailing}
+		cov["bounded_standins"] = []string{"BOUNDED (not counted as proved): the real LuaWspGenerator.Generate on enumerated programs (declaration order x reference kind x nesting): whole-file advance / scope / defines / returns, and a `local function dissect_x` precedes every call of dissect_x"}
+		cov["bounded_standin_run"] = map[string]interface{}{"bound": fmt.Sprintf("%d programs enumerated in goverif/lua.go (luaPrograms), 5 predicates each", len(luaPrograms())), "cases": bounded, "failing": boundedFailing}
 	}
 	ev := Evidence{PropertyID: prop, Tier: tier, Seed: seed, Level: level, Coverage: cov, WallS: time.Since(t0).Seconds(), Violations: violations,
 		Assumptions: []string{"strings are abstract: predicates speak about provenance and literal atoms of the emitted template, not about characters produced for unusual names", "option values range over the documented sets (u8/u16/u32/u64 prefixes)", "library contracts of fmt.Sprintf / strings.Builder / strcase / html/template are trusted"}}
